@@ -511,6 +511,40 @@ theorem embedding_calls :
     ∧ "CopyConfig: d.buildCopyConfigElem(source, target)" ∈ Gen.C03Embedding.calls := by
   decide +kernel
 
+/-! ## the request does not depend on what the server advertised -/
+
+/-- **request_independent_of_server_caps.** Two drivers that agree on the negotiated framing, the
+two serialisation options and the message-id counter produce the same reported input, the same
+framed input and the same bytes on the wire for the same marshalled payload — whatever capabilities
+(with-defaults basic mode, candidate, xpath, url, …), session-id and preferred version they hold. -/
+theorem request_independent_of_server_caps (st st' : DriverState) (inner : Bytes)
+    (hv : st.version = st'.version) (hs : st.selfClose = st'.selfClose)
+    (hh : st.noHeader = st'.noHeader) (hm : st.messageID = st'.messageID) :
+    (st.request inner).1 = (st'.request inner).1
+    ∧ (st.request inner).2.1 = (st'.request inner).2.1
+    ∧ (st.request inner).2.2.1 = (st'.request inner).2.2.1 := by
+  simp only [DriverState.request, hv, hs, hh, hm, and_self]
+
+/-- … and sending leaves what the server advertised alone -/
+theorem request_keeps_server_caps (st : DriverState) (inner : Bytes) :
+    (st.request inner).2.2.2.serverCaps = st.serverCaps
+    ∧ (st.request inner).2.2.2.messageID = st.messageID + 1 := ⟨rfl, rfl⟩
+
+/-- **defaults_mode_on_wire.** Each of the four with-defaults modes the caller may name yields a
+`<with-defaults>` element whose content is exactly that mode (the element is never dropped; there
+is no parameter through which a server capability could enter). -/
+theorem defaults_mode_on_wire (mode : Bytes)
+    (h : mode = Gen.Netconf.reportAll ∨ mode = Gen.Netconf.reportAllTagged
+      ∨ mode = Gen.Netconf.trim ∨ mode = Gen.Netconf.explicit) :
+    ∃ e, defaultsElem mode = some (some e) ∧ childrenOf defaultsOpen defaultsClose e = some mode := by
+  refine ⟨defaultsOpen ++ mode ++ defaultsClose, ?_, childrenOf_wrap _ _ _⟩
+  rcases h with rfl | rfl | rfl | rfl <;> decide +kernel
+
+/-- Source fact (regenerated on every run): nothing a request method can reach in driver/netconf
+touches `serverCapabilities`, `sessionID` or `PreferredVersion`, or calls `ServerHasCapability`,
+`ServerCapabilities`, `SessionID`, `processServerCapabilities` or `determineVersion`. -/
+theorem request_path_caps_free : Gen.C03Embedding.capsFree = true := by decide +kernel
+
 /-! ## a session that ends early (failed call, transport write failure between two requests) -/
 
 /-- the stream of a session is the stream of its first `k` requests followed by the bytes of the
